@@ -79,7 +79,8 @@ var cfgHashOptions = [][2]string{{"build", "nonce"}, {"build", "lang"}, {"builde
 func cfgValue(opt [2]string, k int) string {
 	switch opt[1] {
 	case "lang":
-		return []string{"en_GB.UTF-8", "C", "en_US.UTF-8", "C.UTF-8"}[k%4]
+		// never the default (en_GB.UTF-8): writing the default down does not change the hash
+		return []string{"C", "en_US.UTF-8", "C.UTF-8", "POSIX"}[k%4]
 	case "reject":
 		return fmt.Sprintf("Verif-Licence-%d", k)
 	}
